@@ -40,6 +40,16 @@ def simulate(rng, k, minq):
         s = "".join(s)
         if rng.random() < 0.5:
             s = revcomp(s)
+        # soft-masked reads (lower case, as some trimmers and converters write them): the whole read, its start, or
+        # single bases; the case of a base plays no part in what is counted
+        x = rng.random()
+        if x < 0.08:
+            s = s.lower()
+        elif x < 0.16:
+            c = rng.randint(1, min(n, k + 2))
+            s = s[:c].lower() + s[c:]
+        elif x < 0.24:
+            s = "".join(ch.lower() if rng.random() < 0.1 else ch for ch in s)
         q = []
         for i in range(n):
             x = rng.random()
@@ -65,7 +75,7 @@ def run(run, tier, seed):
                 "behaviours replayed into the real KmerFilter on both strand modes. MC_SplitKmer quality config: every "
                 "record over {A,N} x qualities {min-1,min,min+1} x 3 rules, iterator = declarative windows, replayed into "
                 "SplitKmer. traces: simulated read pairs (coverage 3-10, errors, N, both orientations, qualities at the "
-                "threshold), min-count 1..6, min-qual 0..40, 3 rules, all k, both strand modes, through `ska build -f` + "
+                "threshold, a quarter of the reads partly or wholly lower case), min-count 1..6, min-qual 0..40, 3 rules, all k, both strand modes, through `ska build -f` + "
                 "`ska nk`; TLC computes ReadPairs. non-trivial = a class exactly at min-count, one at min-count-1 and a "
                 "quality exactly at the threshold; distinct by (reads, parameters)")
     run.assumptions = ["hash collisions of the counting filter cannot be forced in the real code; the 0.1% bound is a counted statistic",
